@@ -192,7 +192,7 @@ static int seq[2][48], seqn[2];
 static int decide(int s, int m) {
   if (!phase) return 0;
   { int mm_ = m & 31;   /* lifecycle / select / plan-status callbacks take no decision: only guards, update* and react* may */
-    if (mm_ == M_ENTER || mm_ == M_REENTER || mm_ == M_EXIT || mm_ == M_SELECT || mm_ == M_QUERY) return 0; }
+    if (mm_ == M_ENTER || mm_ == M_REENTER || mm_ == M_EXIT || mm_ == M_SELECT) return 0; }
 #ifdef P_C10
   if (dec_set[s][m & 31]) return dec_fix[s][m & 31];
 #endif
@@ -201,6 +201,7 @@ static int decide(int s, int m) {
   dec_set[s][m & 31] = 1; dec_fix[s][m & 31] = d;
 #endif
   if (d == 0) return 0;
+  if ((m & 31) == M_QUERY) __CPROVER_assume(d == 0x3000);      /* a query handler can only consume the query */
   int guard = (m & 31) == M_ENTRY_GUARD || (m & 31) == M_EXIT_GUARD;
   if (d == -1) { __CPROVER_assume(guard && cancel_ok); return -1; }
   if (d == 0x3000) { __CPROVER_assume(consume_ok && m < 32 && ((m & 31) >= M_PRE_REACT && (m & 31) <= M_POST_REACT)); return d; }   /* M_QUERY lies between REACT and POST_REACT */
@@ -602,7 +603,18 @@ static void choose_utilities(void) {
 #ifdef TV_WALK
     util_k[s] = 1 + util_k[s] % 7; rank_val[s] = rank_val[s] % 2;
 #endif
+#ifdef UTIL_HEAD_ZERO
+    /* a region head may report utility 0 where the enclosing region still has a plain sub-state (always positive), so
+       every top-rank sum stays positive */
+    { int zero_ok = 0;
+      if (st_kind[s] != 0 && st_parent[s] >= 0) {
+        int p = st_parent[s]; while (p >= 0 && st_kind[p] == 2) { int q = st_parent[p]; if (q < 0) break; p = q; }     /* nearest composite-style ancestor */
+        for (int i = 0; i < st_width[p]; i++) if (st_kind[st_child[p][i]] == 0) zero_ok = 1; }
+      __CPROVER_assume(util_k[s] < 8 && (util_k[s] >= 1 || zero_ok));
+      __CPROVER_assume(rank_val[s] == 0); }                    /* equal ranks: the plain sub-state is always in the top rank */
+#else
     __CPROVER_assume(util_k[s] >= 1 && util_k[s] < 8);
+#endif
   }
   /* FSM-level harnesses use strictly positive utilities (k/4, k in 1..7), so every top-rank sum is positive (the
      documented precondition of randomize); zero utilities and the float edge cases are C12's kernel queries */
@@ -1009,6 +1021,18 @@ int main(void) {
 #error "ENTRY"
 #endif
   phase = 0; close_rounds();
+#if defined(P_C05) && !defined(NO_CONSUME)
+#if ENTRY == E_REACT
+  COVER(cons_s[0] >= 0 && st_kind[cons_s[0]] != 0); COVER(cons_s[1] >= 0 && st_kind[cons_s[1]] == 0); COVER(cons_s[2] >= 0);
+  COVER(cons_s[0] < 0 && cons_s[1] < 0 && cons_s[2] < 0 && n_cb >= 6);
+#elif ENTRY == E_QUERY
+  COVER(cons_s[3] >= 0 && st_kind[cons_s[3]] != 0); COVER(cons_s[3] >= 0 && st_kind[cons_s[3]] == 0); COVER(cons_s[3] < 0 && n_cb >= 3);
+#endif
+#endif
+#if defined(WITNESS) && defined(P_C05) && (ENTRY == E_REACT || ENTRY == E_QUERY) && !defined(NO_CONSUME)
+  /* the witness of the react/query harnesses also shows that a consuming handler is reachable */
+  __CPROVER_assume(cons_s[0] >= 0 || cons_s[1] >= 0 || cons_s[2] >= 0 || cons_s[3] >= 0);
+#endif
   END;
   const uint8_t *a = vf_compo_active(I), *r = vf_compo_resumable(I);
   VF_OBS(a[0]); VF_OBS(r[0]); VF_OBS(rounds);
